@@ -34,6 +34,12 @@ SCHEMAS = {
                                 "Child": {"allOf": [{"$ref": "#/definitions/Base"}], "type": "object",
                                           "properties": {"content-type": {"type": "string"}, "own": {"type": ["number", "null"]}}},
                                 "Grand": {"allOf": [{"$ref": "#/definitions/Child"}], "type": "object", "properties": {"z": {"type": "boolean"}}, "required": ["z"]}}},
+    # shapes that make the generator reach for other constructs: an alias-rendered definition on a reference cycle listed
+    # before the class it names, two classes referring to each other, a self-reference through a map
+    "alias-cycle": {"definitions": {"Tree": {"type": "array", "items": {"$ref": "#/definitions/Node"}},
+                                    "Node": {"type": "object", "properties": {"name": {"type": "string"}, "children": {"$ref": "#/definitions/Tree"}}}}},
+    "cycle": {"definitions": {"A": {"type": "object", "properties": {"b": {"$ref": "#/definitions/B"}, "m": {"type": "object", "additionalProperties": {"$ref": "#/definitions/A"}}}},
+                              "B": {"type": "object", "properties": {"a": {"$ref": "#/definitions/A"}, "u": {"anyOf": [{"$ref": "#/definitions/A"}, {"type": "null"}]}}}}},
 }
 GQL = """
 type A { id: ID!  b: [B!] }
@@ -123,6 +129,11 @@ def sweep_cases(ctx):
                         continue
                     if opts.get("keyword_only") and kind != "dataclasses.dataclass":
                         continue
+                    cases.append({"version": v, "kind": kind, "input": inp, "opts": opts})
+    for v in (VERSIONS if ctx.thorough else VERSIONS[:2]):
+        for kind in e2e.KINDS:
+            for inp in ("alias-cycle", "cycle"):
+                for opts in (({}, {"use_union_operator": True}, {"collapse_root_models": True}) if ctx.thorough else ({},)):
                     cases.append({"version": v, "kind": kind, "input": inp, "opts": opts})
     return cases
 
